@@ -300,8 +300,8 @@ def gen_contain(rng, tier):
 
 def gen_deny(rng, tier):
     files = ["/etc/f1", "/etc/f10", "/etc/f1.conf", "/etc/g1", "/etc/g2", "/etc/x1", "/etc/x2", "/data/i1.conf", "/data/i2.conf",
-             "/data/i10.conf", "/etc/with space", "/etc/c1"]
-    cmds = ["/bin/echo alpha", "/bin/echo alphabet", "/bin/echo alpha beta", "/bin/cat /etc/c1", "/usr/bin/printf x",
+             "/data/i10.conf", "/etc/with space", "/etc/c1", "/etc/app[1].log", "/etc/app1.log", "/etc/z[ab]", "/etc/za", "/etc/q?x", "/etc/q*x"]
+    cmds = ["/bin/echo alpha", "/bin/echo alphabet", "/bin/echo alpha beta", "/bin/cat /etc/c1", "/usr/bin/printf x", "/bin/echo [secret]", "/bin/echo s*t ?",
             "/bin/echo 'quoted arg' tail", "/bin/sh -c 'echo hi there'", "/bin/echo \"dq arg\" x", "/bin/echo a\\ b"]
     items = ["i1", "i2", "i10"]
     specs = [
